@@ -1,6 +1,6 @@
 CFG = dict(
     lean_modules=["SaramaVerif.Model.CodecPrim", "SaramaVerif.Model.CodecFmt", "SaramaVerif.Model.CodecRecords",
-                  "SaramaVerif.Model.CodecMachine",
+                  "SaramaVerif.Model.CodecMachine", "SaramaVerif.Model.CodecSchemas",
                   "SaramaVerif.Lemmas.C09Prim", "SaramaVerif.Lemmas.C09Fmt", "SaramaVerif.Lemmas.C09Records", "SaramaVerif.Lemmas.C09Machine",
                   "SaramaVerif.Props.C09", "SaramaVerif.Bridge.C09"],
     lean_support=["SaramaVerif.GoSem", "SaramaVerif.Gen.C09", "SaramaVerif.Driver.C09"],
@@ -23,7 +23,7 @@ CFG = dict(
         "Bridge.C09.varintAdjust_eq", "Bridge.C09.prep_pop_varlen", "Bridge.C09.varintCheck_eq",
         "Bridge.C09.compactArrayLength_eq", "Bridge.C09.compactArrayLength_err", "Bridge.C09.arrayLengthGuard_eq"],
     # n = random values per body × version (plus 3 fixed shapes each); scripts and record cases scale in the harness
-    n={"quick": 14, "thorough": 400, "search": 40},
+    n={"quick": 60, "thorough": 1000, "search": 40},
     thorough_seeds=3,
     level="proof",
     assumptions=[
